@@ -675,10 +675,7 @@ impl Rewrite for ast::GenericParam {
 
     fn rewrite_result(&self, context: &RewriteContext<'_>, shape: Shape) -> RewriteResult {
         // FIXME: If there are more than one attributes, this will force multiline.
-        let mut result = self
-            .attrs
-            .rewrite_result(context, shape)
-            .unwrap_or(String::new());
+        let mut result = self.attrs.rewrite_result(context, shape)?;
         let has_attrs = !result.is_empty();
 
         let mut param = String::with_capacity(128);
